@@ -87,10 +87,13 @@ func ensureFileExists(path string, mode os.FileMode) error {
 		return err
 	}
 	verifPoint("ensure.create")
-	if err := os.WriteFile(path, []byte{}, mode); err != nil {
+	// Create without truncating: another process may have created (and already appended to)
+	// the file between the stat above and this call.
+	file, err := os.OpenFile(path, os.O_CREATE|os.O_WRONLY, mode)
+	if err != nil {
 		return fmt.Errorf("cannot create %s: %w", path, err)
 	}
-	return nil
+	return file.Close()
 }
 
 func newEvent(eventType string, ts time.Time, payload interface{}) (Event, error) {
